@@ -140,10 +140,12 @@ End Reach.
 
 (* ---- the interpreter consults b_isa only on finitely many classes ----------------------- *)
 Definition cop_classes (o : cop) : list exn := match o with CCatch cls _ => cls | _ => [] end.
-Definition isa_classes (C : list cop) : list exn := StopIterationC :: ExceptionC :: flat_map cop_classes C.
+Definition isa_classes (C : list cop) : list exn :=
+  nodup (list_eq_dec Nat.eq_dec) (StopIterationC :: ExceptionC :: flat_map cop_classes C).
 
 Definition beh_agree (C : list cop) (b b' : beh) : Prop :=
   b_out b = b_out b' /\ b_big b = b_big b' /\ b_pick b = b_pick b' /\ b_async b = b_async b' /\
+  b_ret_err b = b_ret_err b' /\
   forall c, In c (isa_classes C) -> b_isa b c = b_isa b' c.
 
 Lemma existsb_agree : forall (f g : exn -> bool) l, (forall c, In c l -> f c = g c) -> existsb f l = existsb g l.
@@ -154,14 +156,16 @@ Qed.
 
 Lemma lstep_ext : forall P C b b' env c s, beh_agree C b b' -> lstep P C b env c s = lstep P C b' env c s.
 Proof.
-  intros P C b b' env c s (Ho & Hb & Hp & Ha & Hi).
+  intros P C b b' env c s (Ho & Hb & Hp & Ha & Hr & Hi).
   destruct c; cbn [lstep].
   - (* parent: only pep479 looks at the behaviour *)
     unfold p_step. destruct (p_stat (ps s)); try reflexivity.
     destruct (nth_error P (p_pc (ps s))) as [op|]; [|reflexivity].
     destruct op; try reflexivity. cbn [p_exec].
     destruct (p_result (ps s)) as [[|x]|]; try reflexivity.
-    unfold pep479. destruct x; [|reflexivity]. rewrite (Hi StopIterationC); [reflexivity|]. now left.
+    + now rewrite Hr.
+    + unfold pep479. destruct x; try reflexivity. rewrite (Hi StopIterationC); [reflexivity|].
+      apply nodup_In. now left.
   - (* child *)
     unfold c_step. destruct (c_stat (cs s)); try reflexivity.
     destruct (nth_error C (c_pc (cs s))) as [op|] eqn:En; [|reflexivity].
@@ -171,7 +175,7 @@ Proof.
     + rewrite Ha, Ho. reflexivity.
     + destruct (c_pend (cs s)); try reflexivity.
       rewrite (existsb_agree (b_isa b) (b_isa b') classes), Hdo; [reflexivity|].
-      intros c Hc. apply Hi. right; right. apply in_flat_map. exists (CCatch classes a). split; [|exact Hc].
+      intros c Hc. apply Hi. apply nodup_In. right; right. apply in_flat_map. exists (CCatch classes a). split; [|exact Hc].
       eapply nth_error_In; eauto.
     + destruct (c_pend (cs s)); try reflexivity; now rewrite Hdo.
   - reflexivity.
@@ -198,9 +202,9 @@ Fixpoint all_tables (cls : list exn) : list (list (exn * bool)) :=
 
 Definition bools : list bool := [true; false].
 Definition all_behs (C : list cop) : list beh :=
-  flat_map (fun o => flat_map (fun t => flat_map (fun big => flat_map (fun pick => map (fun asy =>
-    {| b_out := o; b_isa := assoc_isa t; b_big := big; b_pick := pick; b_async := asy |})
-    bools) bools) bools) (all_tables (isa_classes C))) [COk; CRaise; CDie].
+  flat_map (fun o => flat_map (fun t => flat_map (fun big => flat_map (fun pick => flat_map (fun asy => map (fun re =>
+    {| b_out := o; b_isa := assoc_isa t; b_big := big; b_pick := pick; b_async := asy; b_ret_err := re |})
+    bools) bools) bools) bools) (all_tables (isa_classes C))) [COk; CRaise; CDie].
 
 Lemma all_tables_complete : forall (f : exn -> bool) cls,
   exists t, In t (all_tables cls) /\ forall c, In c cls -> assoc_isa t c = f c.
@@ -216,12 +220,14 @@ Qed.
 Lemma all_behs_complete : forall C b, exists b', In b' (all_behs C) /\ beh_agree C b b'.
 Proof.
   intros C b. destruct (all_tables_complete (b_isa b) (isa_classes C)) as [t [Ht Hf]].
-  exists {| b_out := b_out b; b_isa := assoc_isa t; b_big := b_big b; b_pick := b_pick b; b_async := b_async b |}.
+  exists {| b_out := b_out b; b_isa := assoc_isa t; b_big := b_big b; b_pick := b_pick b; b_async := b_async b;
+            b_ret_err := b_ret_err b |}.
   split.
   - unfold all_behs. apply in_flat_map. exists (b_out b). split; [destruct (b_out b); cbn; auto|].
     apply in_flat_map. exists t. split; [exact Ht|].
     apply in_flat_map. exists (b_big b). split; [destruct (b_big b); cbn; auto|].
     apply in_flat_map. exists (b_pick b). split; [destruct (b_pick b); cbn; auto|].
-    apply in_map_iff. exists (b_async b). split; [reflexivity | destruct (b_async b); cbn; auto].
+    apply in_flat_map. exists (b_async b). split; [destruct (b_async b); cbn; auto|].
+    apply in_map_iff. exists (b_ret_err b). split; [reflexivity | destruct (b_ret_err b); cbn; auto].
   - repeat split; try reflexivity. intros c Hc. cbn. symmetry. now apply Hf.
 Qed.
